@@ -289,11 +289,17 @@ fn pairs(n: usize) -> Vec<(usize, usize)> {
 /// all shapes: per pair a state 0 (no edge) or 1..=nw (edge of width W[state-1]); every node j >= 1
 /// has an incoming edge (hence is reachable from 0 by induction)
 fn shapes(n: usize, nw: usize) -> Vec<Vec<u8>> {
+    shapes_capped(n, nw, usize::MAX)
+}
+
+/// as `shapes`, keeping only shapes with at most `max_edges` edges (a relabelling-invariant filter)
+fn shapes_capped(n: usize, nw: usize, max_edges: usize) -> Vec<Vec<u8>> {
     let ps = pairs(n);
     let mut out = vec![];
     let mut cur = vec![0u8; ps.len()];
     loop {
-        let ok = (1..n).all(|j| ps.iter().zip(&cur).any(|((_, t), s)| *t == j && *s != 0));
+        let ok = cur.iter().filter(|s| **s != 0).count() <= max_edges
+            && (1..n).all(|j| ps.iter().zip(&cur).any(|((_, t), s)| *t == j && *s != 0));
         if ok {
             out.push(cur.clone());
         }
@@ -356,14 +362,14 @@ fn relabel_shape(shape: &[u8], pi: &[usize], ps: &[(usize, usize)], idx: &[[usiz
 
 /// Isomorphism reduction (relabelling of non-root nodes): keep a shape iff it is the
 /// lexicographically smallest among its valid relabellings; return it with its automorphisms.
-fn canonical_shapes(n: usize, nw: usize) -> Vec<(Vec<u8>, Vec<Vec<usize>>)> {
+fn canonical_shapes(n: usize, nw: usize, max_edges: usize) -> Vec<(Vec<u8>, Vec<Vec<usize>>)> {
     let perms = perms_nonroot(n);
     let ps = pairs(n);
     let mut idx = [[0usize; 8]; 8];
     for (k, (a, b)) in ps.iter().enumerate() {
         idx[*a][*b] = k;
     }
-    shapes(n, nw)
+    shapes_capped(n, nw, max_edges)
         .into_par_iter()
         .filter_map(|s| {
             let mut auts = vec![];
@@ -561,13 +567,15 @@ struct Family<'a> {
     variants: Variants,
     iso_reduce: bool,
     id_orders: &'a [u8],
+    /// only shapes with at most this many edges
+    max_edges: usize,
 }
 
 fn run_family(run: &Run, f: &Family) {
     let shapes: Vec<(Vec<u8>, Vec<Vec<usize>>)> = if f.iso_reduce {
-        canonical_shapes(f.n, f.widths.len())
+        canonical_shapes(f.n, f.widths.len(), f.max_edges)
     } else {
-        shapes(f.n, f.widths.len()).into_iter().map(|s| (s, vec![])).collect()
+        shapes_capped(f.n, f.widths.len(), f.max_edges).into_iter().map(|s| (s, vec![])).collect()
     };
     // work items: (shape, chunk of size vectors)
     let chunk = 64usize;
@@ -629,6 +637,15 @@ fn body(run: &Run, replay: Option<&Value>) {
     }
     // development aid only: C05_ONLY=public|graph restricts the run (never set by ./check)
     let only = std::env::var("C05_ONLY").unwrap_or_default();
+    if only == "count6" {
+        // development aid: size of the N=6 family
+        let cs = canonical_shapes(6, 2, 7);
+        let sv = size_vectors(6, &[4], &[0xFFFE, 0x10000], 2);
+        let graphs: usize = cs.par_iter().map(|(_, auts)| sv.iter().filter(|s| sizes_canonical(s, auts)).count()).sum();
+        println!("n6: {} canonical shapes, {} size vectors, {} graphs, t={:.1}s", cs.len(), sv.len(), graphs, run.elapsed());
+        run.cap_hit("C05_ONLY=count6");
+        return;
+    }
     if only == "public" {
         run.cap_hit("C05_ONLY=public: graph family skipped");
         public_path::run_all(run);
@@ -664,6 +681,7 @@ fn body(run: &Run, replay: Option<&Value>) {
             variants: Variants::TwoDeviations,
             iso_reduce: false,
             id_orders: &[0, 1],
+            max_edges: usize::MAX,
         });
     }
     // --- N = 4 plain: all shapes x all 7^4 sizes
@@ -675,6 +693,7 @@ fn body(run: &Run, replay: Option<&Value>) {
         variants: Variants::Plain,
         iso_reduce: false,
         id_orders: if quick { &[0] } else { &[0, 1] },
+        max_edges: usize::MAX,
     });
     if quick {
         // N = 4 with one multi-edge or one adjustment, sizes {4, 0xFFFE, 0x10000}
@@ -686,6 +705,7 @@ fn body(run: &Run, replay: Option<&Value>) {
             variants: Variants::OneDeviation,
             iso_reduce: false,
             id_orders: &[0],
+            max_edges: usize::MAX,
         });
         // N = 5, <= 2 large nodes, isomorphic relabellings removed
         run_family(run, &Family {
@@ -696,6 +716,7 @@ fn body(run: &Run, replay: Option<&Value>) {
             variants: Variants::Plain,
             iso_reduce: true,
             id_orders: &[0],
+            max_edges: usize::MAX,
         });
         run.bound("graph_families", json!("N<=3: all shapes x 7 sizes x {plain, one multi-edge, one adjustment=2, both} x both id orders; N=4: all 416 shapes x 7^4 sizes plain, and x {4,FFFE,10000}^4 with one multi-edge or one adjustment; N=5: shapes up to relabelling x (<=2 large nodes from {FFFE,10000}, others size 4)"));
     } else {
@@ -707,6 +728,7 @@ fn body(run: &Run, replay: Option<&Value>) {
             variants: Variants::Plain,
             iso_reduce: false,
             id_orders: &[0],
+            max_edges: usize::MAX,
         });
         run_family(run, &Family {
             name: "n4_one_deviation_full_sizes",
@@ -716,6 +738,7 @@ fn body(run: &Run, replay: Option<&Value>) {
             variants: Variants::OneDeviation,
             iso_reduce: false,
             id_orders: &[0],
+            max_edges: usize::MAX,
         });
         run_family(run, &Family {
             name: "n5_iso_le3large_small{0,4}",
@@ -725,17 +748,19 @@ fn body(run: &Run, replay: Option<&Value>) {
             variants: Variants::Plain,
             iso_reduce: true,
             id_orders: &[0],
+            max_edges: usize::MAX,
         });
         run_family(run, &Family {
-            name: "n6_iso_le2large_small{4}_large{FFFE,10000}",
+            name: "n6_iso_le7edges_le2large_small{4}_large{FFFE,10000}",
             n: 6,
             widths: &w2,
             sizes: size_vectors(6, &[4], &[0xFFFE, 0x10000], 2),
             variants: Variants::Plain,
             iso_reduce: true,
             id_orders: &[0],
+            max_edges: 7,
         });
-        run.bound("graph_families", json!("N<=3: all shapes (widths 16/24/32) x 7 sizes x {plain, one multi-edge, one adjustment=2, both} x both id orders; N=4: all shapes x 7^4 sizes plain (both id orders; also with 24-bit links), and with one multi-edge or one adjustment; N=5: shapes up to relabelling x (<=3 large nodes from the 4 large sizes, others {0,4}); N=6: shapes up to relabelling x (<=2 large nodes from {FFFE,10000}, others size 4)"));
+        run.bound("graph_families", json!("N<=3: all shapes (widths 16/24/32) x 7 sizes x {plain, one multi-edge, one adjustment=2, both} x both id orders; N=4: all shapes x 7^4 sizes plain (both id orders; also with 24-bit links), and with one multi-edge or one adjustment; N=5: shapes up to relabelling x (<=3 large nodes from the 4 large sizes, others {0,4}); N=6: shapes with <= 7 edges (a spanning tree plus at most two extra links) up to relabelling x (<=2 large nodes from {FFFE,10000}, others size 4)"));
     }
     run.sample(G { n: 4, sizes: vec![4, 0x10000, 0xFFFE, 2], edges: vec![(0, 1, 4, 0), (0, 2, 2, 0), (1, 3, 2, 0), (2, 3, 2, 0)], id_order: 0 }.to_json());
 
